@@ -34,6 +34,8 @@ func c11Maps(prefix string, thorough bool) []http.Header {
 		{k1: {c11Values[3], c11Values[4], c11Values[5]}, k2: {c11Values[6]}},
 		{kb: {connect.EncodeBinaryHeader([]byte{0x00, 0xff, 0x10}), connect.EncodeBinaryHeader([]byte{})}, k1: {c11Values[7]}},
 	}
+	// a key shared by all carriers: merged views must keep every carrier's values
+	out = append(out, http.Header{"X-Shared": {prefix + "-shared-1", prefix + "-shared-2"}, k1: {c11Values[0]}})
 	if thorough {
 		for i := range c11Values {
 			out = append(out, http.Header{k2: {c11Values[i], c11Values[(i+3)%len(c11Values)]}})
@@ -144,15 +146,16 @@ func c11Check(c *ev.Collector, k c11Case) {
 			viol("call-fails", "no-error", "expected a *connect.Error, got %v", res.Err)
 			break
 		}
-		want := k.ErrM.Clone()
-		if !(unaryResp) {
+		wants := []http.Header{k.ErrM}
+		if !unaryResp {
 			// streaming handlers set headers/trailers on the stream before failing
-			mergeInto(want, k.RespH)
-			mergeInto(want, k.RespT)
+			wants = append(wants, k.RespH, k.RespT)
 		}
-		if msg, ok := HeaderSubset(want, ce.Meta()); !ok {
-			bad = true
-			viol("error-metadata", "missing", "%s (error metadata %v)", msg, ce.Meta())
+		for _, want := range wants {
+			if msg, ok := HeaderSubset(want, ce.Meta()); !ok {
+				bad = true
+				viol("error-metadata", "missing", "%s (error metadata %v)", msg, ce.Meta())
+			}
 		}
 	}
 	if bad {
